@@ -42,4 +42,18 @@ $(B)/litmus: $(B)/h/litmus.o $(B)/bbmc_rt.o
 $(B)/mc_%: $(B)/h/mc_%.o $(B)/bbmc_rt.o $(B)/mc/libbabylon_mc.a
 	$(CXX) -o $@ $(B)/h/mc_$*.o $(B)/bbmc_rt.o $(B)/mc/libbabylon_mc.a $(LIBS)
 
--include $(BOBJ:.o=.d) $(wildcard $(B)/h/*.d)
+# ---- seqx flavour: ASan + UBSan, no model runtime ----------------------------------------------------------
+SQFLAGS := -std=gnu++20 -O1 -g -fsanitize=address,undefined -fno-sanitize=null -fno-sanitize-recover=all -fno-omit-frame-pointer -Wno-deprecated-declarations $(INC)
+AOBJ := $(patsubst $(REPO)/src/%.cpp,$(B)/asan/%.o,$(BSRC))
+$(B)/asan/%.o: $(REPO)/src/%.cpp
+	@mkdir -p $(dir $@)
+	$(CXX) $(SQFLAGS) -DNDEBUG -MMD -MP -c $< -o $@
+$(B)/asan/libbabylon_asan.a: $(AOBJ)
+	rm -f $@ && ar rcs $@ $(AOBJ)
+$(B)/hs/%.o: /verif/harness/%.cpp /verif/harness/seqx.h
+	@mkdir -p $(dir $@)
+	$(CXX) $(SQFLAGS) -DNDEBUG -fno-access-control -MMD -MP -c $< -o $@
+$(B)/sq_%: $(B)/hs/sq_%.o $(B)/asan/libbabylon_asan.a
+	$(CXX) -fsanitize=address,undefined -o $@ $(B)/hs/sq_$*.o $(B)/asan/libbabylon_asan.a $(LIBS)
+
+-include $(BOBJ:.o=.d) $(AOBJ:.o=.d) $(wildcard $(B)/hs/*.d) $(wildcard $(B)/h/*.d)
